@@ -146,17 +146,17 @@ def check_case(case):
                     desc, None if mask is None else mask.astype(int).tolist(), rg, got.tolist(), want.tolist())))
     # the container's per-cycle flag
     if segs and n <= contupto:
-        for cache in (True, False):
+        for cache, col in ((True, False), (False, False), (True, True)):
             try:
-                C = Cycles(phase.copy(), phase_step=STEP, phase_edge=edge, use_cache=cache)
+                C = Cycles(phase[:, None].copy() if col else phase.copy(), phase_step=STEP, phase_edge=edge, use_cache=cache)
                 flag = np.asarray(C.metrics['is_good'])
             except Exception as e:
-                viols.append(('raise:container:%s' % type(e).__name__, '%s use_cache=%s raised %r' % (desc, cache, e)))
+                viols.append(('raise:container:%s' % type(e).__name__, '%s use_cache=%s column=%s raised %r' % (desc, cache, col, e)))
                 continue
             trans += 1
             want = np.array(good, dtype=int)
             if flag.shape != want.shape or not np.array_equal(flag.astype(int), want):
-                viols.append(('container-flag', '%s use_cache=%s: metrics[is_good]=%s expected %s' % (desc, cache, flag.tolist(), want.tolist())))
+                viols.append(('container-flag' + (':column-input' if col else ''), '%s use_cache=%s column=%s: metrics[is_good]=%s expected %s' % (desc, cache, col, flag.tolist(), want.tolist())))
     if not segs:
         cls = 'nowrap'
     elif any(good) and not all(good):
